@@ -1,7 +1,9 @@
 #!/bin/sh
 # run every registered quick (or $1) check on the unchanged tree with seed $VERIF_SEED; print one line per check
 tier=${1:-quick}
-for p in $(python3 -c "import json;print(' '.join(c['property_id'] for c in json.load(open('/verif/MANIFEST.json'))['checks']))"); do
-  out=$(cd /verif && timeout 3000 /venv/bin/python check.py --property $p --tier $tier 2>&1 | grep -E "^VIOLATION|^KNOWN|^$p |INFRA" | tr '\n' ' ')
-  echo "$out"
+here=$(cd "$(dirname "$0")/.." && pwd)
+for p in $(python3 -c "import json;print(' '.join(c['property_id'] for c in json.load(open('$here/MANIFEST.json'))['checks']))"); do
+  t0=$(date +%s)
+  out=$(cd "$here" && timeout 7200 /venv/bin/python check.py --property $p --tier $tier 2>&1 | grep -E "^VIOLATION|^KNOWN|^$p |INFRA" | tr '\n' ' ')
+  echo "$out [$(( $(date +%s) - t0 )) s]"
 done
